@@ -179,7 +179,14 @@ func (g *gen) cmd(d int) (string, string) {
 		w, sw := g.word(0)
 		p1, sp1 := g.word(0)
 		t, s := g.seq(d-1, false)
-		switch g.pick(3) {
+		switch g.pick(4) {
+		case 3:
+			// two items whose lists end in a separator before ";;"
+			if g.multiline {
+				return "case " + w + " in " + p1 + ") " + t + ";; esac", "(cmd (case " + sw + " (item " + sp1 + " => " + s + ")))"
+			}
+			t2, s2 := g.seq(0, true)
+			return "case " + w + " in " + p1 + ") " + t2 + ";; q) " + t2 + ";; esac", "(cmd (case " + sw + " (item " + sp1 + " => " + s2 + ") (item <lit:q> => " + s2 + ")))"
 		case 0:
 			return "case " + w + " in " + p1 + ") " + t + ";; esac", "(cmd (case " + sw + " (item " + sp1 + " => " + s + ")))"
 		case 1:
@@ -421,4 +428,49 @@ func genProgram(d, budget int) []rune {
 	g.name = "v"
 	text, _ := g.seq(d, false)
 	return []rune(text)
+}
+
+// C02_Cross: constructs whose recognition depends on bookkeeping done by
+// another construct (parenthesis counting across case patterns, subshells,
+// function definitions and command substitutions versus the (( )) command;
+// here-document and reserved-word state across compound commands). Each
+// program is compared with an equivalent spelling that does not exercise the
+// interaction, and must contain the node kinds it spells.
+func C02_Cross() {
+	pairs := [][3]string{
+		{"case x in (a) ((1 + 2)) ;; esac", "case x in a) ((1 + 2)) ;; esac", "arith-eval"},
+		{"case x in (a) b ;; esac; ((1 + 2))", "case x in a) b ;; esac; ((1 + 2))", "arith-eval"},
+		{"case x in (a|b) c ;; (d) ((1 + 2)) ;; esac", "case x in a|b) c ;; d) ((1 + 2)) ;; esac", "arith-eval"},
+		{"(a); ((1 + 2))", "( a ); ((1 + 2))", "arith-eval"},
+		{"(a) && ((1 + 2)) || (b)", "( a ) && ((1 + 2)) || ( b )", "arith-eval"},
+		{"f() { a; }; ((1 + 2))", "f() { a; }\n((1 + 2))", "arith-eval"},
+		{"f() (a); ((1 + 2))", "f() ( a )\n((1 + 2))", "arith-eval"},
+		{"x=$(a); ((1 + 2))", "x=$( a ); ((1 + 2))", "arith-eval"},
+		{"a $((1 + 2)) $(b); ((3))", "a $((1 + 2)) $( b ); ((3))", "arith-eval"},
+		{"if (a); then ((1 + 2)); fi", "if ( a ); then ((1 + 2)); fi", "arith-eval"},
+		{"((1 + 2)); (a); ((3))", "((1 + 2))\n(a)\n((3))", "arith-eval"},
+		{"for i in $(a); do ((i + 1)); done", "for i in $( a ); do ((i + 1)); done", "arith-eval"},
+		{"a <<E; ((1 + 2))\nx\nE\n", "a <<E\nx\nE\n((1 + 2))", "arith-eval"},
+		{"{ (a) }; ((1 + 2))", "{ (a); }; ((1 + 2))", "arith-eval"},
+	}
+	p := pairs[nd.Choice(len(pairs))]
+	nd.Observe(p[0])
+	got, _, err := parseStream([]rune(p[0]))
+	want, _, err2 := parseStream([]rune(p[1]))
+	nd.Assert(err == nil && err2 == nil, "both spellings are accepted")
+	if err != nil || err2 != nil {
+		return
+	}
+	g, w := SkelEq(got), SkelEq(want)
+	nd.Assert(g == w, "the two spellings denote the same program")
+	nd.Assert(contains2(g, p[2]), "the construct is recognised as what it spells")
+}
+
+func contains2(s, sub string) bool {
+	for i := 0; i+len(sub) <= len(s); i++ {
+		if s[i:i+len(sub)] == sub {
+			return true
+		}
+	}
+	return false
 }
